@@ -37,7 +37,7 @@ theorem sound (ls : List NLabel) (n n' : Net) (hr : run? init ls = some n) (a b 
       ∀ j x y, j < k → iter n.graph j b = some x → n.graph.get? x = some y →
         (n.asks (n.tokOf x)).caller = x ∧ (n.asks (n.tokOf x)).callee = y ∧ (n.asks (n.tokOf x)).st = .inflight := by
   have h := NInv_run ls n hr
-  simp only [step?] at hs
+  simp only [step?, stepWith] at hs
   split at hs
   · cases hs
   · rename_i hg
@@ -105,12 +105,12 @@ theorem ended_dont_count (ls : List NLabel) (n n' : Net) (hr : run? init ls = so
       (clear n (n.asks t).caller t).graph.get? (n.asks t).caller = none :=
     fun st' hh hs hl => (NInv_release n t _ st' h rfl hh hs hl).2
   rcases hs with hs | hs
-  · simp only [step?] at hs
+  · simp only [step?, stepWith] at hs
     split at hs
     · rename_i hst; cases hs; simp only [f2, if_true]; exact key .done (by rw [hst]; rfl) rfl nofun
     · rename_i hst; cases hs; simp only [f2, if_true]; exact key .done (by rw [hst]; rfl) rfl nofun
     · cases hs
-  · simp only [step?] at hs
+  · simp only [step?, stepWith] at hs
     split at hs
     · rename_i hst; cases hs; simp only [f2, if_true]; exact key .abandoned (by rw [hst]; rfl) rfl nofun
     · rename_i hst; cases hs; simp only [f2, if_true]; exact key .abandoned (by rw [hst]; rfl) rfl nofun
@@ -123,7 +123,7 @@ theorem answered_no_edge (ls : List NLabel) (n n' : Net) (hr : run? init ls = so
     n'.graph.get? (n.asks t).caller = none := by
   have h := NInv_run ls n hr
   obtain ⟨_, e2⟩ := h.askEdge t (by rw [hst]; rfl)
-  simp only [step?, hst, flags.1, if_true] at hs
+  simp only [step?, stepWith, hst, flags.1, if_true] at hs
   cases hs
   simp only [clear_get?, e2, and_self, if_true]
 
